@@ -23,7 +23,12 @@ RULE = ('cases = (rule set from the expression generator + fixed always-allow/de
         'credentials (role subsets, scope fields, non-JSON values: bytes, sets, objects, passwords) x targets (nested, '
         'opaque objects) x {plain, do_raise, do_raise+custom class+args} x {enforce, authorize} x debug logging off/on. '
         'Non-trivial = the plain decision is falsy (so the raising modes must raise) or a scope mismatch applies; '
-        'distinct = distinct (rules, rule, target, creds) triple. Stratum `overlap`: two requests on one enforcer at the same time in different modes with different exception arguments (second one runs at sampled line boundaries of the first, deterministic scheduler): each outcome is that of the request alone.')
+        'distinct = distinct (rules, rule, target, creds) triple. Stratum `overlap`: two requests on one enforcer at the same time in different modes with different exception arguments (second one runs at sampled line boundaries of the first, deterministic scheduler): each outcome is that of the request alone. '
+        'Stratum `related-names`: fresh enforcers whose registered defaults include renamed policies (DeprecatedRule with another name) and same-name '
+        'deprecations, rule set from a policy file or in memory with / without the old name defined or overridden; authorize in the three modes on names that are '
+        'NOT registered but related to registered ones (deprecated old name of a renamed policy, other letter case, surrounding white space, prefix / suffix, '
+        'look-alike spelling, defined in the rule set only, the default rule, registered on another enforcer) must raise PolicyNotRegistered with no check '
+        'evaluated (all rules involved start with the counting check), before and after the first load; the registered names: authorize == enforce in every mode.')
 ASSUMPTIONS = ['the documented mirroring of system_scope into system is the only permitted change to the credentials',
                'the message of PolicyNotAuthorized "names the policy" = contains str(rule) for rules given by name']
 LEVEL_TEXT = ('Seeded sampling of triples, each enforced in 12 mode combinations by the real code and related pairwise; the '
@@ -31,7 +36,8 @@ LEVEL_TEXT = ('Seeded sampling of triples, each enforced in 12 mode combinations
 LEVEL_NOTE = 'trusted: the mode-relation oracle transcribed from the statement; copy.deepcopy for fresh inputs per call'
 PLAN = {'quick': dict(shards=4, wall=60), 'thorough': dict(shards=16, wall=400)}
 MIN = {'overlapping_evaluations': 200, 'evaluations': 1000, 'falsy_plain': 300, 'truthy_plain': 300, 'custom_exceptions_seen': 200,
-       'invalid_scope_seen': 20, 'not_registered_seen': 100, 'debug_on_triples': 300, 'empty_ruleset_triples': 50}
+       'invalid_scope_seen': 20, 'not_registered_seen': 100, 'debug_on_triples': 300, 'empty_ruleset_triples': 50,
+       'related_name_probes': 800, 'related_name_probes.deprecated-old-name': 80, 'related_registered_compared': 300}
 ANCHORS = ['oslo_policy.policy:Enforcer.enforce', 'oslo_policy.policy:Enforcer.authorize',
            'oslo_policy.policy:Enforcer._enforce_scope']
 REQUIRED_ANCHORS = ['oslo_policy.policy:Enforcer.enforce', 'oslo_policy.policy:Enforcer.authorize']
@@ -350,8 +356,240 @@ def check_case(ctx, worlds, case):
         ctx.violation('do_raise-returns-falsy', case, {'contract': cname, 'observed': info})
 
 
+# ---- stratum `related-names`: unregistered names that are *related* to registered ones ---------------------------------
+RELATED = {'quick': 480, 'thorough': 12000}
+_SVC = ['compute', 'volume', 'identity', 'os_api', 'Net', 'img']
+_RES = ['server', 'volume', 'user', 'Port', 'share_type', 'key']
+_VERB = ['create', 'get', 'list', 'delete', 'update', 'Show']
+# every check string starts with the counting check, so that any evaluation at all moves the call counter
+COUNTED = ['pvcount:x', 'not pvcount:x', 'pvcount:x or pvcount:y', 'pvcount:y and role:z', 'pvcount:y or role:z',
+           'pvcount:z and not role:x', 'not pvcount:y and pvcount:x', 'pvcount:x or @', 'pvcount:y and !']
+PLAINS = ['@', '!', 'role:x', 'not role:y', 'role:x and role:z']
+
+
+def _old_names(rnd, svc, res, verb, new):
+    """Spellings a policy may have had before it was renamed (all different from `new`)."""
+    cands = ['%s:%s_%s' % (svc, res, verb), '%s:%s:%s' % (svc, res, verb), '%s_%s' % (verb, res), '%s:%s' % (svc, verb),
+             '%s:%ss:%s' % (svc, res, verb), new.upper(), new.swapcase(), new + ':v1', 'old_' + new, new.replace(':', '.'),
+             new.rsplit('_', 1)[0]]
+    return [c for c in cands if c != new]
+
+
+def related_variants(name):
+    """[kind, spelling] pairs close to `name` (the caller drops the ones that are registered themselves)."""
+    head = name.split(':')[0]
+    out = [['case', name.upper()], ['case', name.lower()], ['case', name.swapcase()], ['case', name.capitalize()],
+           ['case', name.title()],
+           ['space', name + ' '], ['space', ' ' + name], ['space', name + '\n'], ['space', '\t' + name], ['space', name + '\x00'],
+           ['space', name.replace(':', ': ', 1)], ['space', name.replace('_', ' ', 1)],
+           ['affix', name[:-1]], ['affix', name[1:]], ['affix', name + 's'], ['affix', name + ':'], ['affix', ':' + name],
+           ['affix', head], ['affix', head + ':'], ['affix', name.rsplit('_', 1)[0]], ['affix', name + '_all'],
+           ['affix', 'rule:' + name], ['affix', name + ':' + name], ['affix', name * 2],
+           ['lookalike', name.replace(':', '\uff1a')], ['lookalike', name.replace('_', '-')], ['lookalike', name.replace(':', '.')],
+           ['lookalike', name.replace('e', '\u0435', 1)], ['lookalike', '"%s"' % name], ['lookalike', name[::-1]]]
+    return [[k, v] for k, v in out if v != name]
+
+
+def gen_related(rnd):
+    """Registered defaults, some of them renamed (DeprecatedRule with another name) or re-defined under the same name, a rule
+    set (file or in-memory) that may or may not define / override the old names, and names to probe that are not registered
+    but related to registered ones."""
+    policies, names = [], set()
+    for _ in range(rnd.randint(2, 5)):
+        for _try in range(20):
+            svc, res, verb = rnd.choice(_SVC), rnd.choice(_RES), rnd.choice(_VERB)
+            new = rnd.choice(['%s:%s_%s', '%s:%s:%s', '%s_%s_%s']) % (svc, verb, res)
+            if new not in names:
+                break
+        else:
+            continue
+        names.add(new)
+        kind = rnd.choice(['renamed', 'renamed', 'same', None])
+        check = rnd.choice(COUNTED if kind or rnd.random() < 0.5 else PLAINS)
+        dep = None
+        if kind == 'renamed':
+            old_check = check if rnd.random() < 0.4 else rnd.choice(COUNTED)
+            dep = dict(name=rnd.choice(_old_names(rnd, svc, res, verb, new)), check=old_check)
+        elif kind == 'same':
+            dep = dict(name=new, check=rnd.choice(COUNTED))
+        policies.append(dict(name=new, check=check, dep=dep))
+    # an old name that is itself (still) registered is simply a registered name: keep such cases, they are probed as registered
+    olds = sorted({p['dep']['name'] for p in policies if p['dep'] and p['dep']['name'] not in names})
+    rules = {}
+    for p in policies:
+        d = p['dep']
+        if d and d['name'] != p['name'] and rnd.random() < 0.55:
+            # the operator still defines the old name: an override that differs from the deprecated default, the deprecated
+            # default itself, or a reference to the new policy (the form the sample generator writes)
+            rules[d['name']] = rnd.choice([rnd.choice(COUNTED), rnd.choice(COUNTED), d['check'], 'rule:%s' % p['name']])
+        if rnd.random() < (0.4 if d and d['name'] == p['name'] else 0.2):
+            rules[p['name']] = rnd.choice(COUNTED)
+    file_only = []
+    for _ in range(rnd.randint(0, 2)):
+        n = '%s:%s_%s' % (rnd.choice(_SVC), rnd.choice(_VERB), rnd.choice(_RES)) + rnd.choice(['', ':x', '_all'])
+        if n not in names:
+            rules[n] = rnd.choice(COUNTED)
+            file_only.append(n)
+    default_via = rnd.choice(['builtin', 'builtin', 'arg', 'conf'])
+    default_name = 'default' if default_via == 'builtin' else rnd.choice(['deflt:any', 'admin_required', 'Default'])
+    if rnd.random() < 0.6:
+        rules[default_name] = rnd.choice(COUNTED)
+    probes = [['deprecated-old-name', o] for o in olds]
+    probes += [['defined-not-registered', n] for n in sorted(rules) if n not in names and n not in olds and n != default_name]
+    probes.append(['default-rule', default_name])
+    elsewhere = None
+    if rnd.random() < 0.5:
+        elsewhere = '%s:%s_%s' % (rnd.choice(_SVC), rnd.choice(_VERB), rnd.choice(_RES)) + ':other'
+        probes.append(['registered-on-another-enforcer', elsewhere])
+    pool = []
+    for n in sorted(names) + olds:
+        pool.extend(related_variants(n))
+    pool.append(['affix', ''])
+    rnd.shuffle(pool)
+    probes += pool[:8]
+    seen, uniq = set(), []
+    for k, n in probes:
+        if n not in names and n not in seen:
+            seen.add(n)
+            uniq.append([k, n])
+    g = gen_case(rnd)
+    return dict(related=True, policies=policies, rules=rules, source=rnd.choice(['file', 'file', 'dict']),
+                fmt=rnd.choice(['json', 'yaml']), default_via=default_via, default_name=default_name,
+                new_defaults=rnd.random() < 0.3, elsewhere=elsewhere, probes=uniq, probe_first=rnd.random() < 0.5,
+                creds={'roles': [r for r in 'xyz' if rnd.random() < 0.5]}, target={'tenant_id': rnd.choice(['t1', 't2'])},
+                exc_args=g['exc_args'], exc_kwargs=g['exc_kwargs'], debug=rnd.random() < 0.4)
+
+
+def relate_modes(policy, res, name, args, kwargs):
+    """The statement's relation between the three modes of one request (no scope types involved)."""
+    p, r, c = res['plain'], res['raise'], res['custom']
+    if p[0] == 'exc':
+        return 'plain-mode-raises'
+    if not p[1]:
+        if not (r[0] == 'exc' and type(r[1]) is policy.PolicyNotAuthorized):
+            return 'deny-without-PolicyNotAuthorized'
+        if str(name) not in str(r[1]):
+            return 'PolicyNotAuthorized-does-not-name-policy'
+        if not (c[0] == 'exc' and type(c[1]) is CustomDenied):
+            return 'deny-without-custom-exception'
+        if c[1].a != args or c[1].k != kwargs:
+            return 'custom-exception-arguments-lost'
+    else:
+        if r[0] == 'exc' or c[0] == 'exc':
+            return 'allowed-request-raises'
+        if not r[1] or not c[1]:
+            return 'do_raise-returns-falsy'
+    return None
+
+
+def check_related(ctx, worlds, case):
+    """authorize on names that are not registered but related to registered ones (the deprecated old name of a renamed policy,
+    other letter case, surrounding white space, prefixes / suffixes, names only defined in the rule set, the default rule's
+    name, a name registered on another enforcer): PolicyNotRegistered in every mode, nothing evaluated.  Conversely the
+    registered names (new names of renamed policies included): authorize == enforce in every mode."""
+    import os
+    from pv.gen import files
+    w = worlds[True]
+    policy = w.policy
+    args, kwargs = tuple(case['exc_args']), dict(case['exc_kwargs'])
+    registered = [p['name'] for p in case['policies']]
+    overrides = {'enforce_new_defaults': bool(case['new_defaults'])}
+    if case['default_via'] == 'conf':
+        overrides['policy_default_rule'] = case['default_name']
+    default_arg = case['default_name'] if case['default_via'] == 'arg' else None
+    tree = None
+    try:
+        if case['source'] == 'file':
+            tree = files.Tree(dirs=(), main='policy.' + case['fmt'])
+            tree.write(os.path.basename(tree.main), case['rules'], case['fmt'])
+            conf = tree.conf(policy_dirs=[], **overrides)
+            enf = policy.Enforcer(conf, default_rule=default_arg)
+        else:
+            conf = env.fresh_conf(**overrides)
+            enf = policy.Enforcer(conf, use_conf=False, default_rule=default_arg)
+        if case['elsewhere']:
+            other = policy.Enforcer(conf, use_conf=False)
+            other.register_default(policy.RuleDefault(case['elsewhere'], 'pvcount:x'))
+        for p in case['policies']:
+            dep = None
+            if p['dep']:
+                dep = policy.DeprecatedRule(p['dep']['name'], p['dep']['check'], deprecated_reason='renamed',
+                                            deprecated_since='N')
+            enf.register_default(policy.RuleDefault(p['name'], p['check'], deprecated_rule=dep))
+        if case['source'] == 'dict':
+            mapping = {p['name']: p['check'] for p in case['policies']}
+            mapping.update(case['rules'])
+            enf.set_rules(policy.Rules.from_dict(mapping))
+
+        def run_modes(fn, name):
+            res = {}
+            for mode in ('plain', 'raise', 'custom'):
+                c, t = json.loads(json.dumps(case['creds'])), dict(case['target'])
+                if mode == 'plain':
+                    res[mode] = outcome(lambda: fn(name, t, c))
+                elif mode == 'raise':
+                    res[mode] = outcome(lambda: fn(name, t, c, do_raise=True))
+                else:
+                    res[mode] = outcome(lambda: fn(name, t, c, True, CustomDenied, *args, **kwargs))
+            return res
+
+        def probe_unregistered():
+            for kind, name in case['probes']:
+                if name in registered:
+                    continue
+                ctx.count('related_name_probes')
+                ctx.count('related_name_probes.' + kind)
+                before = w.Odd.calls + w.Counting.calls
+                ares = run_modes(enf.authorize, name)
+                bad = [m for m, v in ares.items() if not (v[0] == 'exc' and isinstance(v[1], policy.PolicyNotRegistered))]
+                if bad:
+                    ctx.violation('authorize-unregistered-not-refused', case,
+                                  {'name': name, 'relation': kind, 'modes': bad,
+                                   'observed': {k: describe(v) for k, v in ares.items()}})
+                if w.Odd.calls + w.Counting.calls != before:
+                    ctx.violation('authorize-unregistered-evaluates', case,
+                                  {'name': name, 'relation': kind, 'check_calls': w.Odd.calls + w.Counting.calls - before})
+
+        def compare_registered():
+            for name in registered:
+                ctx.count('related_registered_compared')
+                eres = run_modes(enf.enforce, name)
+                ares = run_modes(enf.authorize, name)
+                edetail = {k: describe(v) for k, v in eres.items()}
+                adetail = {k: describe(v) for k, v in ares.items()}
+                key = relate_modes(policy, eres, name, args, kwargs)
+                if key:
+                    ctx.violation(key, case, dict(edetail, api='enforce', name=name))
+                akey = relate_modes(policy, ares, name, args, kwargs)
+                if akey:
+                    ctx.violation('authorize-' + akey, case, dict(adetail, api='authorize', name=name))
+                elif adetail != edetail:
+                    ctx.violation('authorize-differs-from-enforce', case, {'name': name, 'enforce': edetail, 'authorize': adetail})
+                if eres['plain'][0] == 'ret':
+                    ctx.count('related_registered_denied' if not eres['plain'][1] else 'related_registered_allowed')
+
+        for debug in ((False, True) if case['debug'] else (False,)):
+            cm = env.debug_logging() if debug else None
+            if cm:
+                cm.__enter__()
+            try:
+                if case['probe_first'] and not debug:
+                    probe_unregistered()        # before the enforcer has loaded anything
+                compare_registered()
+                probe_unregistered()
+            finally:
+                if cm:
+                    cm.__exit__(None, None, None)
+        ctx.case(['related', case['policies'], case['rules'], case['probes'], case['source'], case['creds']], True, 'related-names')
+        for cname, info in contracts.drain():
+            ctx.violation('do_raise-returns-falsy', case, {'contract': cname, 'observed': info})
+    finally:
+        if tree is not None:
+            tree.cleanup()
+
+
 OVERLAPS = {'quick': 10, 'thorough': 200}
-MODES = ['plain', 'raise', 'custom', 'authorize-plain', 'authorize-custom']
+MODES =['plain', 'raise', 'custom', 'authorize-plain', 'authorize-custom']
 
 
 def check_overlap(ctx, worlds, case):
@@ -412,6 +650,7 @@ def describe(v):
 
 
 def run(ctx):
+    ctx.reserve(0.8)          # the strata that come last (overlapping operations) keep a fifth of the wall budget
     contracts.enforce_do_raise_truthy()
     worlds = {True: World(True), False: World(False)}
     try:
@@ -424,6 +663,15 @@ def run(ctx):
             if i % 400 == 0:
                 ctx.sample(case)
         ctx.stratum('random', exhaustive=False)
+        # unregistered names related to registered ones (renamed / deprecated policies, near-miss spellings)
+        ctx.stratum('related-names', exhaustive=False)
+        for i in range(RELATED[ctx.tier] // ctx.nshards + 1):
+            if (i & 0xf) == 0 and ctx.expired():
+                break
+            rcase = gen_related(ctx.sub_rnd('R', ctx.tier, ctx.shard, i))
+            check_related(ctx, worlds, rcase)
+            if i % 100 == 0:
+                ctx.sample(rcase, 'related-names')
         # invalid context objects: documented InvalidContextObject in every mode
         from oslo_policy import policy
         for bad in ([], 'creds', 5, None, ('roles',), object()):
@@ -435,6 +683,7 @@ def run(ctx):
                                   {'creds_type': type(bad).__name__, 'observed': describe(o)})
         for k, v in contracts.EVALS.items():
             ctx.count('contract_evals.' + k, v)
+        ctx.release()
         # two overlapping requests, last (the line-level scheduler slows everything that runs after it is installed)
         from pv.mon import sched
         ctx.stratum('overlap', exhaustive=False)
@@ -458,6 +707,8 @@ def replay(ctx, case):
             return
         if case.get('overlap'):
             return check_overlap(ctx, worlds, case)
+        if case.get('related'):
+            return check_related(ctx, worlds, case)
         check_case(ctx, worlds, case)
     finally:
         for w in worlds.values():
